@@ -108,6 +108,47 @@ theorem sim_done_le_required (w : World) (prog : Program) (inp : Inputs) (start 
   exact Sched.done_le_required_partial (schedCfg c) hnd hk ds
     (chrono_of_calendar inp start hv hcal N ds hd) hok i y
 
+/-- on the computed calendar, consecutive simulated days that lie in one calendar year have strictly
+increasing (month, day): the hypothesis `(yr.map md).Pairwise mdLt` of C06's "all of them when feasible"
+(`all_done_when_feasible`, `C06_feasible_statement`) holds for every year block of a simulation -/
+theorem md_pairwise_of_calendar (start : Sched.Date) (hv : validDate start) (a : Nat) (yr : List Sched.DayIn)
+    (hd : ∀ i (hi : i < yr.length), yr[i].date = dateOf start (a + i))
+    (y : Nat) (hyr : ∀ d ∈ yr, d.date.y = y) : (yr.map Sched.md).Pairwise Sched.mdLt := by
+  rw [List.pairwise_map, List.pairwise_iff_getElem]
+  intro i j hi hj hij
+  have h1 := hyr yr[i] (List.getElem_mem hi)
+  have h2 := hyr yr[j] (List.getElem_mem hj)
+  have hlt := dateOf_strictMono start hv (a + i) (a + j) (by omega)
+  rw [← hd i hi, ← hd j hj] at hlt
+  unfold dateLt at hlt
+  unfold Sched.mdLt Sched.md
+  simp only
+  omega
+
+/-- the history `sim_sched_runDays` / `sim_done_le_required` produce carries the computed calendar day by day,
+and so does every suffix of it (`yr = ds.drop a`, the shape `pre ++ yr` of `all_done_when_feasible`) -/
+theorem sim_history_dates (inp : Inputs) (start : Sched.Date) (hcal : ∀ n, inp.date n = dateOf start n)
+    (N : Nat) (ds : List Sched.DayIn) (hd : ds.map (·.date) = (List.range N).map inp.date) :
+    ∀ i (hi : i < ds.length), ds[i].date = dateOf start i := by
+  intro i hi
+  have hlen : ds.length = N := by
+    have := congrArg List.length hd
+    simpa using this
+  have h := congrArg (fun l => l[i]?) hd
+  simp only [List.getElem?_map, List.getElem?_eq_getElem hi, Option.map_some] at h
+  rw [List.getElem?_range (by omega)] at h
+  simp only [Option.map_some, Option.some.injEq] at h
+  rw [h, hcal i]
+
+theorem sim_history_drop_dates (inp : Inputs) (start : Sched.Date) (hcal : ∀ n, inp.date n = dateOf start n)
+    (N : Nat) (ds : List Sched.DayIn) (hd : ds.map (·.date) = (List.range N).map inp.date) (a : Nat) :
+    ∀ i (hi : i < (ds.drop a).length), (ds.drop a)[i].date = dateOf start (a + i) := by
+  intro i hi
+  have hi' : a + i < ds.length := by
+    rw [List.length_drop] at hi; omega
+  rw [List.getElem_drop]
+  exact sim_history_dates inp start hcal N ds hd (a + i) hi'
+
 /-- non-vacuity: the mobile OGI method of the example program of `Props/Sim.lean` meets the hypotheses of
 `sim_done_le_required` (mobile, not a follow-up method, distinct sites, a valid start date) -/
 example : (schedCfg exOGI).kind = .routine ∧ (schedCfg exOGI).sites.Nodup ∧ exOGI.role ≠ .followUp ∧
